@@ -461,12 +461,17 @@ pub fn run_c04(report: &mut Report) {
     let mut scenarios: Vec<(Scenario, Vec<String>)> = Vec::new();
     // fault-free runs first: they define the request sequence
     let irrd0 = Irrd::start(model.db.clone());
-    for &n in &ns {
-        let base = Scenario { instance_name: None, running: policies(n), ephemeral: Instance::default(), fault: None, expected_loads: n, irr_plan: Plan::default() };
+    // a non-empty starting point: a policy that is installed but no longer managed (its removal is one more load)
+    let mut stale = Instance::default();
+    _ = stale.apply("<configuration><policy-options><policy-statement><name>old-policy</name><term><name>inet</name><from><family>inet</family><route-filter><address>203.0.113.0/24</address><prefix-length-range>/24-/24</prefix-length-range></route-filter></from><then><accept/></then></term><then><reject/></then></policy-statement></policy-options></configuration>");
+    let variants: Vec<(usize, bool)> = ns.iter().map(|n| (*n, false)).chain(if thorough { vec![(0, true), (1, true), (2, true)] } else { vec![(1, true)] }).collect();
+    for &(n, with_stale) in &variants {
+        let loads = n + usize::from(with_stale);
+        let base = Scenario { instance_name: None, running: policies(n), ephemeral: if with_stale { stale.clone() } else { Instance::default() }, fault: None, expected_loads: loads, irr_plan: Plan::default() };
         let rec = run_agent(&base, &irrd0, &format!("C04-base-{n}"));
-        let expect: Vec<String> = ["open-configuration", "get-config", "get-config"].iter().map(|s| (*s).to_string()).chain((0..n).map(|_| "load-configuration".to_string())).chain(["commit-configuration", "close-configuration", "close-session"].iter().map(|s| (*s).to_string())).collect();
+        let expect: Vec<String> = ["open-configuration", "get-config", "get-config"].iter().map(|s| (*s).to_string()).chain((0..loads).map(|_| "load-configuration".to_string())).chain(["commit-configuration", "close-configuration", "close-session"].iter().map(|s| (*s).to_string())).collect();
         if rec.rpcs != expect || rec.exit != Some(0) || rec.commits != 1 {
-            report.violation(&format!("C04:fault-free-run-unexpected:N={n}"), &format!("fault-free run: requests {:?}, exit {:?}, commits {} (expected {:?}, exit 0, 1 commit)", rec.rpcs, rec.exit, rec.commits, expect), record_json(&base, &rec));
+            report.violation(&format!("C04:fault-free-run-unexpected:N={n}{}", if with_stale { "+stale" } else { "" }), &format!("fault-free run: requests {:?}, exit {:?}, commits {} (expected {:?}, exit 0, 1 commit)", rec.rpcs, rec.exit, rec.commits, expect), record_json(&base, &rec));
             continue;
         }
         report.sample(json!({"fault_free_run": {"N": n, "requests": rec.rpcs, "exit": rec.exit}}));
@@ -478,7 +483,7 @@ pub fn run_c04(report: &mut Report) {
                 }
                 scenarios.push((Scenario { fault: Some((k, kind)), ..base.clone() }, expect.clone()));
             }
-            if expect[k] == "load-configuration" && k + 1 < 3 + n {
+            if expect[k] == "load-configuration" && k + 1 < 3 + loads {
                 scenarios.push((Scenario { fault: Some((k, FaultKind::DelayedRpcError)), ..base.clone() }, expect.clone()));
             }
         }
@@ -492,12 +497,12 @@ pub fn run_c04(report: &mut Report) {
             chunk.iter().enumerate().map(|(i, (s, e))| (s.clone(), e.clone(), run_agent(s, &irrd, &format!("C04-{ci}-{i}")))).collect::<Vec<_>>()
         })
         .collect();
-    let mut evaluations = ns.len() as u64;
+    let mut evaluations = variants.len() as u64;
     let mut distinct = std::collections::BTreeSet::new();
     for (scn, expect, rec) in &results {
         evaluations += 1;
         let (k, kind) = scn.fault.expect("fault");
-        _ = distinct.insert(format!("{}|{k}|{kind:?}", expect.len()));
+        _ = distinct.insert(format!("{}|{}|{k}|{kind:?}", expect.len(), scn.ephemeral.policies.len()));
         let step = &expect[k];
         let key_tail = format!("{kind:?}:at-{step}");
         let case = record_json(scn, rec);
@@ -579,7 +584,7 @@ pub fn run_c04(report: &mut Report) {
     report.set("distinct_nontrivial", distinct.len() as u64);
     report.set("agent_runs", evaluations);
     report.set("exhaustive", true);
-    report.set("rule", "the real agent (one-shot, local target through the stand-in cli; a slice with N = 1 also through the remote TLS target) against a fake Junos NETCONF server and a fake IRRd; N managed policies for N in the stated range; one fault per run at every position of the request sequence open, get-config x2, load x N, commit, close-configuration, close-session, of every kind {rpc-error, warning+error rpc-errors, malformed reply, reply with an unknown message-id, reply re-using an earlier message-id, connection close before the reply, close after the reply}, plus failing load replies delayed until every later load was received; distinct = (N, position, kind); oracle over (exit status, request list as seen by the server)");
+    report.set("rule", "the real agent (one-shot, local target through the stand-in cli; a slice with N = 1 also through the remote TLS target) against a fake Junos NETCONF server and a fake IRRd; N managed policies for N in the stated range, starting from an empty instance and from one that holds a policy that is no longer managed (its delete is one more load); one fault per run at every position of the request sequence open, get-config x2, load x N, commit, close-configuration, close-session, of every kind {rpc-error, warning+error rpc-errors, malformed reply, reply with an unknown message-id, reply re-using an earlier message-id, connection close before the reply, close after the reply}, plus failing load replies delayed until every later load was received; distinct = (N, position, kind); oracle over (exit status, request list as seen by the server)");
     report.assume("the fake Junos answers as the repository's fixtures and the Junos XML protocol documentation describe");
 }
 
